@@ -83,54 +83,67 @@ def coq_make(targets, timeout=1500):
 
 
 def coq_property(pid, timeout=1500):
-    """Build Properties_<pid>.vo (and everything it needs), then re-run coqc on the property
-    file itself to capture `Print Assumptions` output.  Returns dict with obligations etc."""
+    """Build every Properties_<pid>*.vo (and everything they need), then re-run coqc on each property
+    file to capture `Print Assumptions` output.  Returns dict with obligations etc."""
+    import glob
     t0 = time.time()
-    vfile = "Properties_%s.v" % pid
-    ok, log = coq_make(["Properties_%s.vo" % pid], timeout=timeout)
-    res = {"ok": ok, "log": log[-4000:], "theorems": [], "assumptions": {}, "bad_axioms": [],
-           "checker_cmd": "make -C coq Properties_%s.vo && coqc -Q coq V coq/%s" % (pid, vfile)}
-    src = open(os.path.join(COQ, vfile)).read()
-    res["theorems"] = re.findall(r"^\s*(?:Theorem|Lemma|Corollary)\s+(\w+)", src, re.M)
-    res["examples"] = re.findall(r"^\s*Example\s+(\w+)", src, re.M)
+    vfiles = sorted(os.path.basename(p) for p in glob.glob(os.path.join(COQ, "Properties_%s*.v" % pid))
+                    if re.fullmatch(r"Properties_%s(_\w+)?\.v" % pid, os.path.basename(p)))
+    res = {"ok": True, "log": "", "theorems": [], "assumptions": {}, "bad_axioms": [], "examples": [],
+           "files": vfiles,
+           "checker_cmd": "make -C coq %s && for each: coqc -Q coq V <file> (Print Assumptions scraped)" % " ".join(v + "o" for v in vfiles)}
+    if not vfiles:
+        res["ok"] = False
+        res["failed"] = "no Properties_%s*.v" % pid
+        return res
+    ok, log = coq_make([v + "o" for v in vfiles], timeout=timeout)
+    res["ok"], res["log"] = ok, log[-4000:]
+    for vfile in vfiles:
+        src = open(os.path.join(COQ, vfile)).read()
+        src_nc = re.sub(r"\(\*.*?\*\)", "", src, flags=re.S)
+        thms = re.findall(r"^\s*(?:Theorem|Lemma|Corollary)\s+(\w+)", src_nc, re.M)
+        res["theorems"] += thms
+        res["examples"] += re.findall(r"^\s*Example\s+(\w+)", src_nc, re.M)
+        if not ok:
+            continue
+        rc, out = sh("coqc -Q . V %s" % vfile, cwd=COQ, timeout=timeout)
+        if rc != 0:
+            res["ok"] = False
+            res["failed"] = _first_coq_error(out)
+            continue
+        names = re.findall(r"Print Assumptions\s+(\w+)\s*\.", src_nc)
+        blocks = re.split(r"(?=Closed under the global context|Axioms:)", out)
+        blocks = [b for b in blocks if b.startswith("Closed under") or b.startswith("Axioms:")]
+        for i, n in enumerate(names):
+            if i >= len(blocks):
+                res["assumptions"][n] = "?"
+                res["bad_axioms"].append((n, "no Print Assumptions output"))
+                continue
+            b = blocks[i]
+            if b.startswith("Closed under"):
+                res["assumptions"][n] = "closed"
+            else:
+                axs = re.findall(r"^\s*([A-Za-z_][\w.']*)\s*:", b, re.M)
+                res["assumptions"][n] = axs
+                for a in axs:
+                    if a.split(".")[-1] not in ALLOWED_AXIOMS:
+                        res["bad_axioms"].append((n, a))
+        for t in thms:
+            if t not in names:
+                res["bad_axioms"].append((t, "theorem without Print Assumptions"))
     if not ok:
         res["failed"] = _first_coq_error(log)
-        res["coq_s"] = time.time() - t0
-        return res
-    rc, out = sh("coqc -Q . V %s" % vfile, cwd=COQ, timeout=timeout)
-    if rc != 0:
-        res["ok"] = False
-        res["failed"] = _first_coq_error(out)
-        res["coq_s"] = time.time() - t0
-        return res
-    # scrape Print Assumptions blocks: each is either "Closed under the global context" or
-    # "Axioms:\n name : type ..." ; they come in file order, one per Print Assumptions
-    names = re.findall(r"Print Assumptions\s+(\w+)\s*\.", src)
-    blocks = re.split(r"(?=Closed under the global context|Axioms:)", out)
-    blocks = [b for b in blocks if b.startswith("Closed under") or b.startswith("Axioms:")]
-    for i, n in enumerate(names):
-        if i >= len(blocks):
-            res["assumptions"][n] = "?"
-            res["bad_axioms"].append((n, "no Print Assumptions output"))
-            continue
-        b = blocks[i]
-        if b.startswith("Closed under"):
-            res["assumptions"][n] = "closed"
-        else:
-            axs = re.findall(r"^([A-Za-z_][\w.']*)\s*:", b, re.M)
-            res["assumptions"][n] = axs
-            for a in axs:
-                if a.split(".")[-1] not in ALLOWED_AXIOMS:
-                    res["bad_axioms"].append((n, a))
-    missing = [t for t in res["theorems"] if t not in names]
-    res["unprinted"] = missing
     if res["bad_axioms"]:
         res["ok"] = False
         res["failed"] = "axioms: %r" % (res["bad_axioms"],)
-    # forbidden tokens anywhere in the development
-    rc, out = sh(r"grep -rnE '\b(Admitted|admit|Axiom|Parameter|Conjecture)\b|Unset Guard|bypass_check|Admit Obligations' "
-                 r"--include=*.v . | grep -v '^./Extract' || true", cwd=COQ)
-    bad = [l for l in out.splitlines() if l.strip() and not re.search(r"\(\*.*(Admitted|admit|Axiom|Parameter).*\*\)", l)]
+    # forbidden tokens anywhere in the development (comments stripped)
+    bad = []
+    for d, _, files in os.walk(COQ):
+        for f in files:
+            if f.endswith(".v"):
+                txt = re.sub(r"\(\*.*?\*\)", "", open(os.path.join(d, f)).read(), flags=re.S)
+                for m in re.finditer(r"\b(Admitted|admit|Axiom|Axioms|Parameter|Parameters|Conjecture|Abort All)\b|Unset Guard|bypass_check|Admit Obligations|-type-in-type", txt):
+                    bad.append("%s: %s" % (f, m.group(0)))
     if bad:
         res["ok"] = False
         res["failed"] = "forbidden tokens: " + "; ".join(bad[:5])
@@ -151,7 +164,7 @@ def model_build(timeout=900):
         raise RuntimeError("extraction failed:\n" + _first_coq_error(log))
     bdir = os.path.join(OCAML, "_build")
     os.makedirs(bdir, exist_ok=True)
-    srcs = ["model.mli", "model.ml", "conv.ml", "registry.ml"]
+    srcs = ["model.mli", "model.ml", "conv.ml", "registry.ml", "lockstep.ml"]
     hdir = os.path.join(OCAML, "handlers")
     srcs += ["handlers/" + f for f in sorted(os.listdir(hdir)) if f.endswith(".ml")]
     srcs += ["driver.ml"]
@@ -268,7 +281,10 @@ def build_lib(cfg, sources=None):
     def comp(s):
         src = s if os.path.isabs(s) else os.path.join(REPO, "source", s)
         o = os.path.join(od, os.path.basename(s).replace(".cpp", ".o"))
-        rc, out = sh("g++ %s -c %s -o %s" % (fl, src, o), timeout=900)
+        f = fl
+        if os.path.basename(s) == "dsched.cpp":   # the scheduler itself uses the real std primitives
+            f = fl.replace(" -include %s/verif_shim.hpp" % HARNESS, "")
+        rc, out = sh("g++ %s -c %s -o %s" % (f, src, o), timeout=900)
         return (o, rc, out)
     with ThreadPoolExecutor(NPROC) as ex:
         rs = list(ex.map(comp, list(srcs) + extra))
@@ -373,7 +389,7 @@ class Check:
             self.cov["discharged"] += n
         else:
             path = self.replay_file("proof", {"kind": "proof-obligation", "property": self.pid,
-                                              "file": "coq/Properties_%s.v" % self.pid,
+                                              "file": "coq/Properties_%s*.v" % self.pid,
                                               "failed": r.get("failed", ""), "log_tail": r["log"][-1500:]})
             self.violation("proof:" + self.pid, path, no_input=True)
         return r["ok"]
